@@ -26,6 +26,8 @@ def main():
     if "--tier" in sys.argv:
         tier = sys.argv[sys.argv.index("--tier") + 1]
     seed = f"/tmp/seed-{name}"
+    if not os.path.exists(f"{seed}/patch.diff"):
+        seed = f"/verif/seeded/{name}"   # re-check of an already stored seed
     wt = f"/tmp/wt-{name}"
     patch = f"{seed}/patch.diff"
     meta = {"name": name, "property": prop, "ran": []}
@@ -79,7 +81,7 @@ def main():
     dst = f"/verif/seeded/{name}"
     os.makedirs(dst, exist_ok=True)
     for f in ("patch.diff", "demo.rs", "notes.md"):
-        if os.path.exists(f"{seed}/{f}"):
+        if seed != dst and os.path.exists(f"{seed}/{f}"):
             shutil.copy(f"{seed}/{f}", f"{dst}/{f}")
     # keep hand-written fields of an existing meta.json
     old = {}
